@@ -321,8 +321,10 @@ class Server(_Server_):
         try:
             res = function(*args, **kwds)
         except Exception as e:
-            msg = ('#ERROR', self._wrap_user_exc(e))
-            return msg
+            # Return directly, not via a local variable: `e.__traceback__` refers to this frame,
+            # so a local that refers to `e` would close a reference cycle and keep `args`
+            # (possibly proxies) alive until the cyclic garbage collector happens to run.
+            return ('#ERROR', self._wrap_user_exc(e))
 
         typeid = gettypeid and gettypeid.get(methodname, None)
         if typeid:
